@@ -11,7 +11,7 @@ ID = "C20"
 LEVEL = "exploration"
 RULE = ("two (quick) / three (thorough) groups of 3 identical files; every subset of the droppable members locked by a "
         "foreign process holding fcntl write locks or read (shared) locks x op {remove, link, link --soft, dedupe, "
-        "move, move to a directory on another mount point known to fclones (loop-mounted ext4 image)} x {default, --no-lock}; and a group in which the locked file has three hard-linked names among the droppable members (report made with and without -H, lock taken through each name). Oracle (a lock is on the file: every name of a locked inode counts as locked): locked members keep inode, bytes and path and are named in a warning; "
+        "move, move to a directory on another mount point known to fclones (loop-mounted ext4 image)} x {default, --no-lock}; and a group in which the locked file has three hard-linked names among the droppable members (report made with and without -H, lock taken through each name). and the same run by an unprivileged user (setpriv, uid 65534) with the locked members read-only (0444) or writable for that user. Oracle (a lock is on the file: every name of a locked inode counts as locked): locked members keep inode, bytes and path and are named in a warning; "
         "every other droppable member is processed; with --no-lock every droppable member is processed. "
         "Non-trivial = at least one member locked; distinct by (subset, lock type, op, flag).")
 ASSUMPTIONS = ["for `dedupe` on a file system without reflink support only 'locked members untouched' can be checked",
@@ -70,10 +70,92 @@ def cases(tier, seed):
                     for gargs in ([], ["-H"]):
                         out.append({"ngroups": 0, "locked": sub, "mode": mode, "op": op, "no_lock": nolock,
                                     "droppable": LINKS_DROPPABLE, "links": True, "gargs": gargs})
+    # fclones run by an unprivileged user; the locked duplicate is read-only for that user (0444 in a writable
+    # directory): opening it for writing - which the lock needs - fails with EACCES before any lock is tried
+    for mode in ("write", "read"):
+        for sub in ([], ["r/b/g0_1"], ["r/b/g0_1", "r/c/g1_2"]):
+            for op in ("remove", "link", "softlink", "move"):
+                for ro in (True, False):
+                    out.append({"ngroups": 2, "locked": sub, "mode": mode, "op": op, "no_lock": False,
+                                "droppable": ["r/b/g0_1", "r/b/g1_1", "r/c/g0_2", "r/c/g1_2"], "unpriv": True, "readonly": ro})
     return out
 
 
+_unpriv_ok = None
+
+
+def can_unpriv():
+    """setpriv present and an unprivileged user can run the binary and reach the ext4 scratch area."""
+    global _unpriv_ok
+    if _unpriv_ok is None:
+        try:
+            r = subprocess.run(["setpriv", "--reuid=65534", "--regid=65534", "--clear-groups", C.FCLONES, "--version"],
+                               stdout=subprocess.PIPE, stderr=subprocess.PIPE, cwd=C.EXT4)
+            _unpriv_ok = r.returncode == 0
+        except OSError:
+            _unpriv_ok = False
+    return _unpriv_ok
+
+
+def evaluate_unpriv(case):
+    viol = []
+    feat = {"op": case["op"], "lock_type": case["mode"], "no_lock": False, "unprivileged_user": True,
+            "locked_file_read_only": case["readonly"]}
+    if not can_unpriv():
+        return {"violations": [], "nontrivial": None, "outcome": "skipped_no_setpriv"}
+    with C.Scratch(C.EXT4) as sc:
+        C.make_tree(sc.tree, tree(case["ngroups"]))
+        report = D.make_report(sc, [], ["r"])
+        target = os.path.join(sc.root, "moved")
+        if case["readonly"]:
+            for rel in case["droppable"]:
+                os.chmod(sc.path(rel), 0o444)
+        subprocess.run(["chmod", "-R", "a+rwX", sc.root], check=True)
+        if case["readonly"]:
+            for rel in case["droppable"]:
+                os.chmod(sc.path(rel), 0o444)
+        before = C.inventory(sc.tree)
+        holder = None
+        try:
+            if case["locked"]:
+                holder = subprocess.Popen([sys.executable, "-c", HOLDER, case["mode"]] +
+                                          [sc.path(p).decode() for p in case["locked"]],
+                                          stdin=subprocess.PIPE, stdout=subprocess.PIPE)
+                if holder.stdout.readline().strip() != b"ready":
+                    raise C.MachineryError("lock holder failed")
+            args = list(D.OPS[case["op"]]) + ([target] if case["op"] == "move" else [])
+            rc, out, err, to = C.run(["setpriv", "--reuid=65534", "--regid=65534", "--clear-groups", C.FCLONES] + args,
+                                     cwd=sc.tree, env=sc.env({"RAYON_NUM_THREADS": "1"}), stdin=report, timeout=120)
+            err = err.decode("utf-8", "replace")
+        finally:
+            if holder:
+                holder.stdin.close()
+                holder.wait()
+        after = C.inventory(sc.tree)
+        if to or rc != 0:
+            viol.append(dict(feat, kind="crash", detail="rc=%s %s" % (rc, err[-300:])))
+        warns = D.warnings(err)
+        locked_inodes = set(before[sc.path(x).decode()]["ino"] for x in case["locked"])
+        for rel in case["droppable"]:
+            p = sc.path(rel).decode()
+            b, a = before[p], after.get(p)
+            untouched = a is not None and (a["type"], a["ino"], a.get("sha")) == (b["type"], b["ino"], b["sha"])
+            if b["ino"] in locked_inodes:
+                if not untouched:
+                    viol.append(dict(feat, kind="locked_file_processed",
+                                     detail="%s is locked (%s) by another process%s but `%s` run by uid 65534 changed it: %s -> %s; stderr %s" % (
+                                         rel, case["mode"], " and read-only for the user" if case["readonly"] else "", case["op"], b, a, err[-200:])))
+                elif not any(os.path.basename(rel) in w for w in warns):
+                    viol.append(dict(feat, kind="no_warning_for_locked_file", detail="%s; stderr %s" % (rel, err[-300:])))
+            # (whether an unlocked read-only file can be processed by this user is not C20's subject)
+    return {"violations": viol, "nontrivial": [case["op"], case["mode"], "unpriv", case["readonly"], case["locked"]] if case["locked"] else None,
+            "outcome": "some_locked" if case["locked"] else "none_locked",
+            "sample": {"locked": case["locked"], "op": case["op"], "unpriv": True, "mode": case["mode"]}}
+
+
 def evaluate(case):
+    if case.get("unpriv"):
+        return evaluate_unpriv(case)
     viol = []
     feat = {"op": case["op"], "lock_type": case["mode"], "no_lock": case["no_lock"]}
     with C.Scratch() as sc:
